@@ -57,7 +57,8 @@ def main():
         TOOL = 4
         mon.use_tool_id(TOOL, 'cpppo-verif-yield')
         rnd = random.Random(os.getpid())
-        names = ('/cpppo/automata.py', '/cpppo/server/enip/device.py', '/cpppo/server/enip/logix.py', '/cpppo/server/enip/ucmm.py', '/cpppo/server/enip/main.py')
+        names = ('/cpppo/automata.py', '/cpppo/server/enip/device.py', '/cpppo/server/enip/logix.py', '/cpppo/server/enip/ucmm.py', '/cpppo/server/enip/main.py',
+                 '/cpppo/server/enip/parser.py')
 
         # Where to widen windows.  CORE: the code that reads and writes the state all sessions share (the tag store, the per-thread
         # closure lists of the shared parser, one-time object creation): a quarter of its lines sleep for real (0.5 ms).  HANDLERS: the
@@ -69,12 +70,21 @@ def main():
         handlers = ('Logix.request', 'Logix.reply_elements', 'Message_Router.request', 'state_multiple_service.', 'UCMM.request', 'Connection_Manager.request',
                     'Connection_Manager.forward_open', 'Connection_Manager.forward_close', 'Object.request', 'setup', 'setup_tag', 'enip_srv_tcp', 'stats_for')
 
+        # ENCODERS: the element-by-element encoders that turn what a read took from the tag store into reply bytes; a window between
+        # two elements shows whether they work on a private snapshot (one line in twenty sleeps 2 ms).
+        encoders = ('TYPE.produce', 'BOOL.produce', 'typed_data.produce', 'Attribute.produce')
+
         def on_line(code, line):
             q = code.co_qualname
-            if not code.co_filename.endswith(names) or not q.startswith(core + handlers):
+            if not code.co_filename.endswith(names) or not q.startswith(core + handlers + encoders):
                 return mon.DISABLE
             r = rnd.random()
-            if q.startswith(core):
+            if q.startswith(encoders):
+                if r < 0.05:
+                    stats['yields'] += 1
+                    stats['encoder_yields'] = stats.get('encoder_yields', 0) + 1
+                    time.sleep(0.002)
+            elif q.startswith(core):
                 if r < 0.25:
                     stats['yields'] += 1
                     stats['long_yields'] = stats.get('long_yields', 0) + 1
